@@ -5,6 +5,7 @@ C19 (code points) and the length clauses of C09 / C10 say, for the functions `ru
 /repo's working tree; what is trusted for them is the translator and `Mir/Sem.lean` only.
 -/
 import Mctp.Tie.Tables
+import Mctp.Mir.Meta
 import Mctp.Spec.Layout
 import Mctp.Spec.Accept
 namespace Mctp.Tie
@@ -67,5 +68,19 @@ theorem resp_len_spec : ∀ b : B,
       else if b = 0x09#8 then .ret 1
       else .ret ((Spec.respFixed b).getD 0) := by
   apply forall_byte; decide +kernel
+
+/-! ### the fuel bound in these statements is not part of their meaning (`Mir/Meta.lean`) -/
+
+theorem cmd_code_points_any_fuel (b : B) (k : Nat) :
+    run Gen.prog Gen.idx_from_CommandCode [b.toNat] (64 + k) =
+      .ret (match C19.cmdTable.lookup b with
+            | some c => (genOfCmd c).discr
+            | none => Gen.CommandCode.Unknown.discr) :=
+  run_fuel_mono _ _ _ 64 k _ (cmd_code_points b) (by simp)
+
+theorem req_len_spec_any_fuel (b : B) (k : Nat) :
+    run Gen.prog Gen.idx_get_request_data_len [b.toNat] (64 + k) =
+      if Spec.reqUnimpl b then .panic .unimplemented else .ret ((Spec.reqFixed b).getD 0) :=
+  run_fuel_mono _ _ _ 64 k _ (req_len_spec b) (by split <;> simp)
 
 end Mctp.Tie
